@@ -587,9 +587,44 @@ def main():
       wl = [(int(np.prod(w.shape)), None) for w in ws]
     wlit = clist(f"({vlib.zlit(a)}, {'None' if b is None else '(Some ' + vlib.zlit(b) + ')'})" for a, b in wl)
     return f"SL {kind} {wlit} {vlib.zlit(out)} {act} true true"
-  for ref, qm, i, tab in size_cases:
+  # directed size models: every branch of _param_size / _act_size, with three DIFFERENT widths for inputs, outputs and the reference
+  def directed_size_models():
+    import tensorflow.keras.layers as L_
+    from tensorflow.keras import Model as M_, Input as I_
+    import qkeras as qk_
+    out = []
+    i_ = I_((6, 6, 2), name="szin")
+    x_ = qk_.QConv2D(3, 2, kernel_quantizer="quantized_bits(4,0,1)", bias_quantizer=None, activation="relu", name="sz_qc")(i_)          # no bias quantizer, plain relu
+    x_ = L_.BatchNormalization(center=False, name="sz_bn0")(x_)
+    x_ = qk_.QDepthwiseConv2D(2, depthwise_quantizer="quantized_bits(3,0,1)", bias_quantizer="quantized_bits(5,2,1)", activation="quantized_relu(3,1)", name="sz_qdw")(x_)
+    x_ = L_.BatchNormalization(scale=False, name="sz_bn1")(x_)
+    x_ = qk_.QActivation("quantized_relu(5,2)", name="sz_qa")(x_)
+    x_ = L_.Flatten(name="sz_fl")(x_)
+    x_ = qk_.QDense(4, kernel_quantizer="ternary(alpha=1.0)", bias_quantizer="quantized_bits(6,2,1)", activation="softmax", name="sz_qd_softmax")(x_)
+    x_ = L_.Dense(3, activation="tanh", name="sz_d")(x_)
+    x_ = L_.Activation("sigmoid", name="sz_sig")(x_)
+    x_ = qk_.QDense(2, kernel_quantizer="quantized_po2(4)", use_bias=False, name="sz_qd_lin")(x_)
+    x_ = L_.Activation("softmax", name="sz_soft")(x_)
+    out.append(M_(i_, x_, name="szm0"))
+    i2 = I_((8, 3), name="szin1")
+    y_ = L_.Conv1D(2, 3, activation="relu", name="sz_c1")(i2)
+    y_ = qk_.QConv1D(2, 2, kernel_quantizer="binary(alpha=1.0)", bias_quantizer="quantized_bits(4,1,1)", activation="quantized_tanh(4)", name="sz_qc1")(y_)
+    y_ = L_.Activation("linear", name="sz_lin")(y_)
+    y_ = L_.Activation("relu", name="sz_relu")(y_)
+    out.append(M_(i2, y_, name="szm1"))
+    return out
+  try:
+    for k_, dm_ in enumerate(directed_size_models()):
+      size_cases.append((dm_, None, 9000 + k_, {}, (6, 7, 9)))
+  except Exception as e:  # pylint: disable=broad-except
+    rep.violation("size-directed-build", f"directed size models could not be built: {type(e).__name__}: {str(e)[:300]}", {})
+  for case in size_cases:
+    ref, qm, i, tab = case[:4]
+    wi, wo, wt = case[4] if len(case) > 4 else (8, 8, 8)
     for which, mdl in (("reference", ref), ("trial", qm)):
-      t = forgiving_factor["bits"](8.0, 8.0, 2.0, stress=1.0, input_bits=8, output_bits=8, ref_bits=8, config={"default": ["parameters", "activations"]})
+      if mdl is None:
+        continue
+      t = forgiving_factor["bits"](8.0, 8.0, 2.0, stress=1.0, input_bits=wi, output_bits=wo, ref_bits=wt, config={"default": ["parameters", "activations"]})
       try:
         total, p_, a_, d = t.compute_model_size(mdl)
       except Exception as e:  # pylint: disable=broad-except
@@ -599,7 +634,7 @@ def main():
       for l in mdl.layers:
         flat += [int(d[l.name]["parameters"]), int(d[l.name]["activations"])]
       rep.count(("size", i, which, tuple(sorted(tab.items()))))
-      stexts.append(f"sizes (W 8 8 8) {clist(slayer(l, t) for l in mdl.layers)}")
+      stexts.append(f"sizes (W {wi} {wo} {wt}) {clist(slayer(l, t) for l in mdl.layers)}")
       sitems.append((i, which, flat, [(type(l).__name__, l.name) for l in mdl.layers]))
   # ---- Coq evaluation
   SH = 40
